@@ -334,6 +334,9 @@ impl Check for C02Print {
         if exp.iter().any(|v| v.depth() > 64) {
             return CaseResult::Discard("nesting > 64".into());
         }
+        if has_surrogate_escape(input) {
+            return CaseResult::Discard("\\uD800-\\uDFFF escape (outside the property's domain)".into());
+        }
         let astral = {
             let mut a = astral_chars_of(&exp);
             if let Expr02::Concat(x, y) = &case.expr {
